@@ -107,13 +107,15 @@ PROPS['C19'] = dict(
             D('MCMiddlewareAlgebra', 'MCMiddlewareAlgebra_3.cfg', tier='thorough', timeout=1800),
             D('MCMiddlewareAlgebra', 'MCMiddlewareAlgebra_mut_legacytimeout.cfg', expect='fail', violates='EffectEndsWithCall')],
     traces={'MiddlewareAlgebraTrace': dict(module='MiddlewareAlgebraTrace', cfg='MiddlewareAlgebraTrace.cfg'),
-            'ThrottleTrace': dict(module='ThrottleTrace', cfg='ThrottleTrace.cfg')},
+            'ThrottleTrace': dict(module='ThrottleTrace', cfg='ThrottleTrace.cfg'),
+            'CircuitBreakerTrace': dict(module='CircuitBreakerTrace', cfg='CircuitBreakerTrace.cfg')},
     rule='runs = every chain of 0..2 of {Timeout, CorrelationID, Recoverer, IgnoreErrors, InstantAck, Throttle, closed CircuitBreaker, DelayOnError, Retry} (all 3-chains '
          'in the thorough tier, a sample in quick) x 13 handler result scripts (outputs with/without correlation id, errors incl. wrapped, panics with value/error/nil, '
-         'fail-then-succeed sequences) x 1..3 consecutive calls on the same message x 5 DelayOnError configurations with fractional multipliers, plus Throttle timing '
-         'runs; distinct = distinct (chain, script, calls); non-trivial = chain is not empty',
+         'fail-then-succeed sequences, errors that are context errors) x 1..3 consecutive calls on the same message x 5 DelayOnError configurations with fractional multipliers, plus Throttle timing '
+         'runs (live, cancelled and short-deadline messages) and CircuitBreaker scripts through closed / open / half-open (beyond C19: CircuitBreakerTrace); distinct = distinct (chain, script, calls); non-trivial = chain is not empty',
     exhaustive=False,
-    min_stats={'algebra_cases': 1000, 'throttle_runs': 5},
+    selftests=[('CircuitBreakerTrace', 'flip', dict(e='cbcall', field='invoked'))],
+    min_stats={'algebra_cases': 1000, 'throttle_runs': 5, 'breaker_scripts': 10},
     assumptions=['Throttle: only the lower bound "k+2 consecutive starts span >= k periods" (minus 10 ms slack) is asserted',
                  'panic(nil) surfaces as *runtime.PanicNilError'],
 )
